@@ -1,0 +1,64 @@
+//go:build verif
+
+package home
+
+// Contracts for govc (see /verif/DESIGN.md).  This file is comment-only and is compiled only with -tags=verif.
+
+// ---- C12: login rate limiter ----
+
+//@ func (ab *authRateLimiter) checkLocked(usrID string, now time.Time) (left time.Duration)
+//@   property C12
+//@   ensures blocked: left > 0 <==> (usrID in ab.failedAuths && ab.failedAuths[usrID].num >= ab.maxAttempts && inst(ab.failedAuths[usrID].until) > inst(now))
+
+//@ func (ab *authRateLimiter) incLocked(usrID string, now time.Time)
+//@   property C12
+//@   requires ab.failedAuths != nil
+//@   requires usrID in ab.failedAuths ==> ab.failedAuths[usrID].num < 18446744073709551615
+//@   modifies entries(ab.failedAuths)
+//@   ensures present: usrID in ab.failedAuths
+//@   ensures num: ab.failedAuths[usrID].num == (old(usrID in ab.failedAuths) ? old(ab.failedAuths[usrID].num) + 1 : 1)
+//@   ensures until-block: ab.failedAuths[usrID].num >= ab.maxAttempts ==> inst(ab.failedAuths[usrID].until) == inst(now) + ab.blockDur
+//@   ensures until-keep: ab.failedAuths[usrID].num < ab.maxAttempts && old(usrID in ab.failedAuths) ==> ab.failedAuths[usrID].until == old(ab.failedAuths[usrID].until)
+//@   ensures until-new: ab.failedAuths[usrID].num < ab.maxAttempts && !old(usrID in ab.failedAuths) ==> inst(ab.failedAuths[usrID].until) == inst(now) + 60000000000
+//@   ensures others: forall u string :: u != usrID ==> (u in ab.failedAuths) == old(u in ab.failedAuths) && ab.failedAuths[u] == old(ab.failedAuths[u])
+
+//@ func (ab *authRateLimiter) cleanupLocked(now time.Time)
+//@   property C12
+//@   modifies entries(ab.failedAuths)
+//@   ensures kept: forall u string :: (u in ab.failedAuths) == (old(u in ab.failedAuths) && !(inst(now) > inst(old(ab.failedAuths[u]).until)))
+//@   ensures values: forall u string :: u in ab.failedAuths ==> ab.failedAuths[u] == old(ab.failedAuths[u])
+//@   loop 1 invariant forall u string :: (u in ab.failedAuths) == (old(u in ab.failedAuths) && !(u in #seen && inst(now) > inst(old(ab.failedAuths[u]).until)))
+//@   loop 1 invariant forall u string :: u in ab.failedAuths ==> ab.failedAuths[u] == old(ab.failedAuths[u])
+//@   loop 1 invariant forall u string :: u in #seen ==> old(u in ab.failedAuths)
+
+//@ func (ab *authRateLimiter) remove(usrID string)
+//@   property C12
+//@   requires !held(ab.failedAuthsLock)
+//@   modifies entries(ab.failedAuths), LockW
+//@   ensures !(usrID in ab.failedAuths)
+//@   ensures forall u string :: u != usrID ==> (u in ab.failedAuths) == old(u in ab.failedAuths) && ab.failedAuths[u] == old(ab.failedAuths[u])
+//@   ensures !held(ab.failedAuthsLock)
+
+//@ func newAuthRateLimiter(blockDur time.Duration, maxAttempts uint) (ab *authRateLimiter)
+//@   property C12
+//@   ensures fresh(ab) && ab.failedAuths != nil && ab.blockDur == blockDur && ab.maxAttempts == maxAttempts
+//@   ensures forall u string :: !(u in ab.failedAuths)
+
+//@ func (ab *authRateLimiter) check(usrID string) (left time.Duration)
+//@   property C12
+//@   requires !held(ab.failedAuthsLock)
+//@   modifies entries(ab.failedAuths), LockW
+//@   ensures !held(ab.failedAuthsLock)
+//@   ensures blocked-needs-record: left > 0 ==> old(usrID in ab.failedAuths) && old(ab.failedAuths[usrID]).num >= ab.maxAttempts
+//@   ensures record-kept: left > 0 ==> usrID in ab.failedAuths && ab.failedAuths[usrID] == old(ab.failedAuths[usrID])
+//@   ensures no-new: forall u string :: u in ab.failedAuths ==> old(u in ab.failedAuths) && ab.failedAuths[u] == old(ab.failedAuths[u])
+
+//@ func (ab *authRateLimiter) inc(usrID string)
+//@   property C12
+//@   requires ab.failedAuths != nil && !held(ab.failedAuthsLock)
+//@   requires usrID in ab.failedAuths ==> ab.failedAuths[usrID].num < 18446744073709551615
+//@   modifies entries(ab.failedAuths), LockW
+//@   ensures !held(ab.failedAuthsLock)
+//@   ensures present: usrID in ab.failedAuths
+//@   ensures num: ab.failedAuths[usrID].num == (old(usrID in ab.failedAuths) ? old(ab.failedAuths[usrID].num) + 1 : 1)
+//@   ensures others: forall u string :: u != usrID ==> (u in ab.failedAuths) == old(u in ab.failedAuths) && ab.failedAuths[u] == old(ab.failedAuths[u])
